@@ -14,9 +14,14 @@ def check(cfg):
     if not isinstance(v, dict):
       out.append(('schedules:harness-exception:%s' % cfg[0], 'scenario raised %r' % (v,), rep))
       return out
+    if cfg[2] == 'sigint':
+      # one Ctrl-C = a single operator abort; runs in which the signal hit one of execute()'s unprotected windows are
+      # C04's known findings, not judged here
+      if any(k.startswith('sigint-') for k, _ in c04.analyse(cfg, ex)):
+        return out
     for kind, what in c04.group_rules(cfg[0], ex.result['events']):
-      out.append(('schedules:%s:%s' % (kind, cfg[0]), '%s, single abort (gates=%s): %s; events %r'
-                  % (cfg[0], cfg[3], what, [e[:3] for e in ex.result['events'] if e[0] != 'line'][:40]), rep))
+      out.append(('schedules:%s:%s' % (kind, cfg[0]), '%s, single abort (%s, %s): %s; events %r'
+                  % (cfg[0], cfg[2], cfg[3], what, [e[:3] for e in ex.result['events'] if e[0] != 'line'][:40]), rep))
     return out
   return chk
 
@@ -24,9 +29,10 @@ def check(cfg):
 def configs(tier):
   if tier == 'quick':
     return [(('group', 1, 'thread', 'wide'), 0), (('nested_main', 1, 'thread', 'wide'), 0), (('nested_td', 1, 'thread', 'wide'), 0),
-            (('group_in_subtest', 1, 'thread', 'wide'), 0), (('group', 1, 'thread', 'main'), 1)]
+            (('group_in_subtest', 1, 'thread', 'wide'), 0), (('group', 1, 'thread', 'main'), 1), (('group', 1, 'sigint', 'free'), 0)]
   return [(('group', 1, 'thread', 'all'), 1), (('nested_main', 1, 'thread', 'all'), 1), (('nested_td', 1, 'thread', 'all'), 1),
-          (('group_in_subtest', 1, 'thread', 'all'), 1), (('group', 1, 'thread', 'body'), 2), (('nested_main', 1, 'thread', 'body'), 2)]
+          (('group_in_subtest', 1, 'thread', 'all'), 1), (('group', 1, 'thread', 'body'), 2), (('nested_main', 1, 'thread', 'body'), 2),
+          (('group', 1, 'sigint', 'free'), 1), (('nested_main', 1, 'sigint', 'free'), 0), (('group_in_subtest', 1, 'sigint', 'free'), 0)]
 
 
 def run_into(rep, tier):
